@@ -68,7 +68,9 @@ def criterion(strat, q, thr, votes, n):
     return thr <= len(P)
 
 
-def aggregate(n, strats, thr_kinds):
+def aggregate(n, strats, thr_kinds, grid_w=False):
+    """grid_w: weights chosen from a concrete grid instead of z3 rationals (Bayesian n=3 with a symbolic
+    fractional threshold is a degree-7 polynomial query that z3 does not decide in the query budget)"""
     def h(c):
         strat = c.choice("strategy", strats)
         thr_kind = c.choice("threshold_kind", thr_kinds)
@@ -83,7 +85,7 @@ def aggregate(n, strats, thr_kinds):
         for i in range(n):
             k = c.choice(f"vote{i}", list(range(lo, len(VT))), labels=[VT[j].name for j in range(lo, len(VT))])
             lo = k
-            w = c.real(f"w{i}", 4, 0, 2)
+            w = c.choice(f"w{i}", [1.0, 0.0, 0.5, 2.0]) if grid_w else c.real(f"w{i}", 4, 0, 2)
             cf = c.real(f"c{i}", 4, 0, 1)
             votes.append(Vote(agent_id=f"a{i}", vote_type=VT[k], confidence=cf, weight=w))
         info = {"strategy": getattr(strat, "name", strat), "ballot": [v.vote_type.name for v in votes], "threshold_kind": thr_kind}
@@ -221,7 +223,9 @@ HARNESSES = {
                                         + [{"n": n, "strats": [VotingStrategy.BAYESIAN], "thr_kinds": ["none"]} for n in (1, 2)]
                                         if tier == "quick" else
                                         [{"n": n, "strats": RATIO + COUNT, "thr_kinds": ["none", "fraction", "count"]} for n in (1, 2, 3, 4, 5)]
-                                        + [{"n": n, "strats": [VotingStrategy.BAYESIAN], "thr_kinds": ["none", "fraction"]} for n in (1, 2, 3)]),
+                                        + [{"n": n, "strats": [VotingStrategy.BAYESIAN], "thr_kinds": ["none", "fraction"]} for n in (1, 2)]
+                                        + [{"n": 3, "strats": [VotingStrategy.BAYESIAN], "thr_kinds": ["none"]},
+                                           {"n": 3, "strats": [VotingStrategy.BAYESIAN], "thr_kinds": ["fraction"], "grid_w": True}]),
                   "clauses": ["C06.a", "C06.b", "C06.b-min", "C06.c", "C06.d", "C06.e", "C06.f"]},
     "collect": {"make": collect, "witness_every": 13,
                 "jobs": lambda tier: [{"n": n, "strats": STRATS} for n in ((1, 2, 3) if tier == "quick" else (1, 2, 3, 4))],
@@ -235,7 +239,7 @@ META = {
         "technique": "symbolic execution of quorum.py aggregators with z3 rational weights/confidences/thresholds; relational (two-run) monotonicity queries",
     },
     "files": ["operon_ai/topology/quorum.py"],
-    "bounds": {"quick": "electorates 1..3 (Bayesian 1..2), all strategies, thresholds none/fraction/count, min_voters 0..n+1", "thorough": "electorates 1..5 (Bayesian 1..3)"},
+    "bounds": {"quick": "electorates 1..3 (Bayesian 1..2), all strategies, thresholds none/fraction/count, min_voters 0..n+1", "thorough": "electorates 1..5 (Bayesian 1..3; Bayesian n=3 with a fractional threshold uses weights from the concrete grid {0, 1/2, 1, 2} and symbolic confidences/threshold); run_vote collection up to 4 stub voters"},
     "outside": ["electorates of 6-7", "weights above 2, negative weights/thresholds", "IEEE rounding in the Bayesian product chain", "reliability updates"],
     "float_argument": "F-grid + F-cmp (see note)",
     "assumptions": ["quorum.float/int rebound to symbolic-aware shims", "voter agents are stubs"],
